@@ -62,7 +62,7 @@ def check(db, rep):
 
     # ------------------------------------------------------------------ r2
     r2 = rep.rule('r2', 'TOKENS: TranslateRS lexes an unmodified copy, replaces [token start + offset, + old length) and accumulates the offset by new - old length once per replacement; interpreted on scripted token streams it rewrites every name up to END whatever tokens stand in between', 5)
-    _translate_all_tokens(db, r2)
+    translate_all_tokens(db, r2)
     f = db.fn(R + 'TranslateRS')
     K = Keyer(f, resolve_refs=False)
     where = '%s:%d' % (f.file, f.line)
@@ -556,7 +556,7 @@ def _raw_text_minimal(db, rep):
         r12.ok('TranslateRaw', '%d (text, map) pairs over %d reference spellings' % (cases, len(refs)), '%s:%d' % (tr.file, tr.line))
 
 
-def _translate_all_tokens(db, rule):
+def translate_all_tokens(db, rule):
     """r2 all-tokens: TranslateRS interpreted over scripted token streams `X1 <t> X1 <t> X12` for every token kind t of the language except END
     (the lexer reports a symbol outside the language as the ordinary token INTERRUPT and goes on): both names are rewritten whatever stands
     between them, names are whole tokens (X12 stays), and the count is the number of replacements."""
@@ -573,8 +573,8 @@ def _translate_all_tokens(db, rule):
                 continue
             for new in ('X2', 'X345'):
                 sym = '#'
-                text = 'X1 %s X1 %s X12' % (sym, sym)
-                toks = [(T['ID_GLOBAL'], 'X1', 0), (tval, sym, 3), (T['ID_GLOBAL'], 'X1', 5), (tval, sym, 8), (T['ID_GLOBAL'], 'X12', 10), (T['END'], '', len(text))]
+                text = 'X1 %s X1 %s X12 X1' % (sym, sym)
+                toks = [(T['ID_GLOBAL'], 'X1', 0), (tval, sym, 3), (T['ID_GLOBAL'], 'X1', 5), (tval, sym, 8), (T['ID_GLOBAL'], 'X12', 10), (T['ID_GLOBAL'], 'X1', 14), (T['END'], '', len(text))]
 
                 def on_call(it, fn, n, env, toks=toks):
                     cs = (n.get('cs') or '').split('::')[-1]
@@ -594,10 +594,10 @@ def _translate_all_tokens(db, rule):
                 m = {'X1': new}
                 tr = ('pyfn', lambda s_, m=m: bytearray(m[bytes(s_).decode()].encode()) if bytes(s_).decode() in m else None)
                 cnt = Interp(db, on_call=on_call).call(f, [buf, flt, tr])
-                want = '%s %s %s %s X12' % (new, sym, new, sym)
+                want = '%s %s %s %s X12 %s' % (new, sym, new, sym, new)
                 cases += 1
-                if (bytes(buf).decode() != want or cnt != 2) and bad is None:
-                    bad = 'token stream X1 <%s> X1 <%s> X12 with X1 -> %s: the text becomes "%s" (%s replacements), expected "%s" (2): a name after a %s token is not rewritten' % (tname, tname, new, bytes(buf).decode(), cnt, want, tname)
+                if (bytes(buf).decode() != want or cnt != 3) and bad is None:
+                    bad = 'token stream X1 <%s> X1 <%s> X12 X1 with X1 -> %s: the text becomes "%s" (%s replacements), expected "%s" (3): every occurrence of the name up to END is rewritten in place, whatever stands between and however the lengths differ' % (tname, tname, new, bytes(buf).decode(), cnt, want)
     except OutOfFragment as e:
         rule.broken('TranslateRS outside the evaluable fragment: %s' % e)
         return
